@@ -644,6 +644,9 @@ def flatten_observe(res, case, texts, top, mode, tmp=None):
             try:
                 with guard.watchdog(WD):
                     sheet = cssutils.CSSParser(fetcher=net.fetcher).parseString(texts[top], href=top)
+                    for i, m in case.get('remedia') or ():
+                        # the media of the i-th @import of the top sheet are replaced through the DOM before flattening
+                        [r for r in sheet.cssRules if r.type == r.IMPORT_RULE][i].media = m or 'all'
                 n_parse = len(net.log)
                 with guard.watchdog(WD):
                     flat = cssutils.resolveImports(sheet)
@@ -950,8 +953,10 @@ def _rel_href(src, dst):
     return posixpath.relpath(b.path, posixpath.dirname(a.path))
 
 
-def run_flatten_case(res, tree, mode, family, extra=None):
+def run_flatten_case(res, tree, mode, family, extra=None, remedia=None):
     case = {'kind': 'flatten', 'tree': tree, 'mode': mode}
+    if remedia:
+        case['remedia'] = remedia
     if extra:
         case['extra'] = extra
     top, tmp = TOP, None
@@ -965,6 +970,10 @@ def run_flatten_case(res, tree, mode, family, extra=None):
         # one more @import in sheet x, of a sheet that is imported elsewhere already (family D)
         vfs[info[x]['url']]['imports'].append([_rel_href(info[x]['url'], info[y]['url']), 's', media])
     texts = {u: ref.render_sheet(s) for u, s in vfs.items()}
+    if case.get('remedia'):
+        # expectation: the sheet as it would read with the new media
+        for i, m in case['remedia']:
+            vfs[top]['imports'][i][2] = m
     res.evaluations += 1
     edges = _tree_edges(tree)
     if edges:
@@ -978,7 +987,7 @@ def run_flatten_case(res, tree, mode, family, extra=None):
     if obs is None:
         return
     judge_flat(res, case, vfs, info, top, obs, mode)
-    if not extra:
+    if not extra and not remedia:
         judge_fetch(res, case, vfs, info, top, obs, mode)  # ("once" per target or per @import is open for a target imported twice)
     res.outcomes.add(h64(['flat', mode[0], _mask(obs['proj'])]))
 
@@ -1198,6 +1207,7 @@ def plan(tier):
     shards.append(['path'])
     shards.append(['shared'])
     shards.append(['wide'])
+    shards.append(['remedia'])
     return shards
 
 
@@ -1243,6 +1253,17 @@ def run_shard(shard, tier, seed):
     elif kind == 'path':
         for tree in path_family():
             run_flatten_case(res, tree, MODE_PATH, 'P')
+    elif kind == 'remedia':
+        # family F: the media of an @import are changed after the parse (the target is loaded already)
+        for loc in LOCS:
+            for m0 in MEDIA:
+                for m1 in ('', 'print', 'tv'):
+                    if m1 == m0:
+                        continue
+                    for content in ('rel', 'fontface', 'media'):
+                        tree = [CONTENT_DEFAULT, [[[loc, m0, 'present'], _leaf(content)], [list(EDGE_DEFAULT), _leaf()]]]
+                        run_flatten_case(res, tree, MODES[0], 'F', remedia=[[0, m1]])
+        res.sample({'kind': 'flatten', 'tree': tree, 'mode': MODES[0], 'remedia': [[0, 'print']]})
     elif kind == 'wide':
         for tree in wide_family():
             for mode in MODES_B:
@@ -1263,7 +1284,7 @@ def replay(case, tier, seed):
     if case['kind'] == 'urls':
         run_urls_case(res, case)
     else:
-        run_flatten_case(res, case['tree'], case['mode'], 'replay', case.get('extra'))
+        run_flatten_case(res, case['tree'], case['mode'], 'replay', case.get('extra'), case.get('remedia'))
     guard.pristine()
     return res
 
